@@ -37,6 +37,9 @@ type c15Spec struct {
 	Mods  int         `json:"mods"`
 	Hists []*c15Hist  `json:"hists"`
 	Hooks []*hookRule `json:"hooks,omitempty"`
+	// GoMaxProcs > 0: the child runs with GOMAXPROCS=<n>. portbase sizes its clearance
+	// queues at package init (100*GOMAXPROCS requests); the overflow classes shrink them.
+	GoMaxProcs int `json:"gomaxprocs,omitempty"`
 }
 
 type c15Hist struct {
@@ -57,7 +60,8 @@ type c15Task struct {
 	DoneCalls  int    `json:"done,omitempty"`
 	DoneConc   bool   `json:"done_conc,omitempty"`
 	MaxDelayMs int    `json:"maxdelay_ms"`
-	Hold       bool   `json:"hold,omitempty"` // saturation phase: stays until `limit` such tasks run at the same time
+	Hold       bool   `json:"hold,omitempty"`  // saturation phase: stays until `limit` such tasks run at the same time
+	Phase      int    `json:"phase,omitempty"` // overflow classes: 1 = slot holder (gated), 2 = fills the clearance queue, 3 = submitted while the queue is full
 }
 
 const c15BigDelayMs = 30000
@@ -115,6 +119,19 @@ func c15Cases(cfg vlib.Cfg) []*c15Spec {
 			}
 			sp.Hists = append(sp.Hists, h)
 		}
+		if i%40 == 9 || i%40 == 29 {
+			// overflow class (first history of the child): limit 2, both slots held, more
+			// requests than a clearance queue holds, then submissions with a tiny max
+			// delay that cannot even queue their request
+			prio := "low"
+			if i%40 == 29 {
+				prio = "med"
+			}
+			sp.Limit, sp.GoMaxProcs, sp.Mods = 2, 2, 2
+			sp.Hists[0] = c15OverflowHist(r, sp, prio, &id)
+			sp.Hists[1].Class = "m1"
+			c15Renumber(sp)
+		}
 		// amplifiers: hooks idle / PRNG delays at the grant and conclude points
 		switch i % 3 {
 		case 1:
@@ -126,6 +143,46 @@ func c15Cases(cfg vlib.Cfg) []*c15Spec {
 		out = append(out, sp)
 	}
 	return out
+}
+
+func c15OverflowHist(r *vlib.Rand, sp *c15Spec, prio string, id *int) *c15Hist {
+	h := &c15Hist{Class: "overflow-" + prio, Submitters: 1}
+	q := sp.GoMaxProcs * 100
+	add := func(t *c15Task) { h.Tasks = append(h.Tasks, t) }
+	for k := 0; k < 2; k++ {
+		add(&c15Task{Mod: k % sp.Mods, Variant: "start", Prio: "med", MaxDelayMs: c15BigDelayMs, Phase: 1})
+	}
+	for k := 0; k < q+20; k++ {
+		add(&c15Task{Mod: r.Intn(sp.Mods), Variant: "start", Prio: prio, RunUs: vlib.Pick(r, 0, 100), MaxDelayMs: 400, Phase: 2})
+	}
+	for k := 0; k < q+60; k++ {
+		t := &c15Task{Mod: r.Intn(sp.Mods), Variant: "start", Prio: prio, RunUs: vlib.Pick(r, 0, 100, 1000), MaxDelayMs: 1, Phase: 3}
+		if k%10 == 0 {
+			t.Variant = "run"
+			t.Err = r.Bool()
+		}
+		add(t)
+	}
+	return h
+}
+
+// c15Renumber gives the tasks of a case consecutive ids again.
+func c15Renumber(sp *c15Spec) {
+	id := 0
+	for _, h := range sp.Hists {
+		holds := 0
+		for _, t := range h.Tasks {
+			t.ID = id
+			t.Mod %= sp.Mods
+			id++
+			if t.Hold { // the saturation phase was laid out for the case's original limit
+				if holds >= sp.Limit {
+					t.Hold = false
+				}
+				holds++
+			}
+		}
+	}
 }
 
 // ---------------------------------------------------------------------------------
@@ -157,6 +214,10 @@ type c15H struct {
 	expConcl  atomic.Int64 // microtasks submitted by the harness (each concludes exactly once)
 
 	probeArmed atomic.Pointer[chan probeSample]
+	resync     atomic.Bool // overflow classes: re-base the request count at the probe's grant
+
+	firstTimeoutT   atomic.Int64 // unix nanos of the first modules.stop.timeout hit
+	firstTimeoutMod atomic.Value // module name of it
 
 	emu sync.Mutex
 	seq uint64
@@ -207,6 +268,11 @@ func c15Child(dir string, raw []byte) {
 				_, _, mt := m.VerifModuleCounts()
 				smp.perMod = append(smp.perMod, mt)
 			}
+			if h.resync.Swap(false) {
+				// every request queued so far has been answered (FIFO queues, drained by
+				// probes) and counted by this handler: this grant is the only open one
+				h.submitted.Store(h.granted.Load() + 1)
+			}
 			*ch <- smp
 		}
 		h.granted.Add(1)
@@ -217,7 +283,12 @@ func c15Child(dir string, raw []byte) {
 		hs.handle(p, s)
 	})
 	vhook.Set("modules.mt.maxdelay", func(p, s string) { h.maxdelay.Add(1) })
-	vhook.Set("modules.stop.timeout", func(p, s string) { h.timeouts.Add(1) })
+	vhook.Set("modules.stop.timeout", func(p, s string) {
+		if h.timeouts.Add(1) == 1 {
+			h.firstTimeoutMod.Store(s)
+			h.firstTimeoutT.Store(time.Now().UnixNano())
+		}
+	})
 
 	modules.VerifSetStopTimeout(8 * time.Second)
 	modules.SetStdErrReporting(false)
@@ -242,16 +313,14 @@ func c15Child(dir string, raw []byte) {
 		}
 	}
 	if ok {
-		// M4 (second half): stopping the modules is not held up
+		// M4 (second half): stopping the modules is not held up - neither when nothing
+		// runs any more nor when a microtask is the last thing of a module to finish
+		fl := h.launchInFlight()
 		done := make(chan error, 1)
 		go func() { done <- modules.Shutdown() }()
 		select {
 		case <-done:
-			if h.timeouts.Load() > 0 {
-				h.b.Violation("C15:M4:stop-held-up", "a module stop ran into the stop timeout although every microtask had finished before Shutdown was called",
-					map[string]any{"spec": h.specNoTasks(), "timeout_hook_hits": h.timeouts.Load(), "counts": h.counts()})
-			}
-			h.b.Count("shutdowns_without_timeout", 1)
+			h.judgeShutdown(fl)
 		case <-time.After(60 * time.Second):
 			h.b.Inconclusive("case %d: Shutdown did not return within 60s", sp.Case)
 		}
@@ -265,6 +334,123 @@ func c15Child(dir string, raw []byte) {
 		}
 	}
 	h.b.Finish(dir)
+}
+
+// inFlight is a microtask that is still running when Shutdown is called: it returns a
+// few milliseconds after its module's context was cancelled and is then the last piece
+// of work of that module (the modules have no stop routine).
+type inFlight struct {
+	mod     string
+	variant string
+	begun   chan struct{}
+	endT    atomic.Int64
+}
+
+func (h *c15H) launchInFlight() []*inFlight {
+	ml := []string{"run-med", "start-low", "sig-med", "run-low-panic", "sig-low", "start-med", "run-med-panic", "start-low"}
+	hp := []string{"start-high", "sig-high", "run-high-panic", "run-high"}
+	var out []*inFlight
+	for i, m := range h.mods {
+		m := m
+		f := &inFlight{mod: m.Name, begun: make(chan struct{})}
+		if i < 2 { // the limit is at least 2
+			f.variant = ml[(h.sp.Case+i*3)%len(ml)]
+		} else {
+			f.variant = hp[h.sp.Case%len(hp)]
+		}
+		out = append(out, f)
+		fn := func(ctx context.Context) error {
+			close(f.begun)
+			<-ctx.Done()
+			time.Sleep(3 * time.Millisecond)
+			f.endT.Store(time.Now().UnixNano())
+			if strings.HasSuffix(f.variant, "-panic") {
+				panic("harness in-flight panic")
+			}
+			return nil
+		}
+		big := c15BigDelayMs * time.Millisecond
+		switch f.variant {
+		case "run-med", "run-med-panic":
+			go func() { _ = m.RunMicroTask("inflight", big, fn) }()
+		case "run-low-panic":
+			go func() { _ = m.RunLowPriorityMicroTask("inflight", big, fn) }()
+		case "run-high", "run-high-panic":
+			go func() { _ = m.RunHighPriorityMicroTask("inflight", fn) }()
+		case "start-med":
+			m.StartMicroTask("inflight", big, fn)
+		case "start-low":
+			m.StartLowPriorityMicroTask("inflight", big, fn)
+		case "start-high":
+			m.StartHighPriorityMicroTask("inflight", fn)
+		default: // signalled
+			go func() {
+				var done func()
+				switch f.variant {
+				case "sig-med":
+					done = m.SignalMicroTask(big)
+				case "sig-low":
+					done = m.SignalLowPriorityMicroTask(big)
+				default:
+					done = m.SignalHighPriorityMicroTask()
+				}
+				close(f.begun)
+				<-m.Stopping()
+				time.Sleep(3 * time.Millisecond)
+				f.endT.Store(time.Now().UnixNano())
+				done()
+				done()
+			}()
+		}
+		// one after the other (the medium/low ones come first): each is counted before
+		// the next one asks for admission, so all of them fit below the limit
+		select {
+		case <-f.begun:
+		case <-time.After(20 * time.Second):
+			h.b.Inconclusive("case %d: in-flight microtask %s on %s was not admitted within 20s", h.sp.Case, f.variant, f.mod)
+		}
+	}
+	return out
+}
+
+func (h *c15H) judgeShutdown(fl []*inFlight) {
+	for _, f := range fl {
+		h.b.Count("stops_with_last_item_microtask:"+f.variant, 1)
+	}
+	if h.timeouts.Load() == 0 {
+		h.b.Count("shutdowns_without_timeout", 1)
+		return
+	}
+	mod, _ := h.firstTimeoutMod.Load().(string)
+	variant := "none"
+	var lastEnd int64
+	open := false
+	for _, f := range fl {
+		if f.mod != mod {
+			continue
+		}
+		variant = f.variant
+		if e := f.endT.Load(); e == 0 || e > h.firstTimeoutT.Load() {
+			open = true
+		} else if e > lastEnd {
+			lastEnd = e
+		}
+	}
+	switch {
+	case variant == "none":
+		h.b.Violation("C15:M4:stop-held-up", "a module stop ran into the stop timeout although every microtask had finished before Shutdown was called",
+			map[string]any{"spec": h.specNoTasks(), "module": mod, "timeout_hook_hits": h.timeouts.Load(), "counts": h.counts()})
+	case open:
+		h.b.Inconclusive("case %d: stop timeout of %s fired while its in-flight microtask had not returned", h.sp.Case, mod)
+	default:
+		idleMs := (h.firstTimeoutT.Load() - lastEnd) / 1e6
+		if idleMs >= 4000 {
+			h.b.Violation("C15:M4:stop-held-up-after-last-microtask:"+variant, fmt.Sprintf("the stop of module %s waited out the stop timeout although its last running microtask (%s) had returned %d ms earlier", mod, variant, idleMs),
+				map[string]any{"spec": h.specNoTasks(), "module": mod, "variant": variant, "idle_ms_before_timeout": idleMs, "counts": h.counts()})
+		} else {
+			h.b.Inconclusive("case %d: stop timeout of %s fired only %d ms after its last microtask returned", h.sp.Case, mod, idleMs)
+		}
+	}
 }
 
 func cnt(n int32) string {
@@ -329,7 +515,16 @@ func (h *c15H) runHist(hi int, hist *c15Hist) bool {
 	var rmu sync.Mutex
 	var rets []retRec
 
+	overflow := strings.HasPrefix(hist.Class, "overflow")
+	gate := make(chan struct{})
+	var holdersIn atomic.Int32
+
 	body := func(t *c15Task) {
+		if t.Phase == 1 { // slot holder: not part of the gauge, stays until the gate opens
+			holdersIn.Add(1)
+			<-gate
+			return
+		}
 		cls := "ml"
 		if t.Prio == "high" {
 			cls = "hp"
@@ -367,8 +562,8 @@ func (h *c15H) runHist(hi int, hist *c15Hist) bool {
 	submit := func(t *c15Task) {
 		m := h.mods[t.Mod]
 		md := time.Duration(t.MaxDelayMs) * time.Millisecond
-		if t.Prio != "high" {
-			h.submitted.Add(1)
+		if t.Prio != "high" && !overflow {
+			h.submitted.Add(1) // (overflow classes: not every submission gets to queue a request; re-based at the fence)
 		}
 		h.expConcl.Add(1)
 		switch t.Variant {
@@ -432,15 +627,56 @@ func (h *c15H) runHist(hi int, hist *c15Hist) bool {
 	}
 
 	var swg sync.WaitGroup
+	if overflow {
+		// scripted: holders take both slots, phase 2 fills the clearance queue (nothing is
+		// granted meanwhile), phase 3 finds it full and runs into its 1 ms max delay
+		phase := func(p int) {
+			for _, t := range hist.Tasks {
+				if t.Phase != p {
+					continue
+				}
+				if t.Variant == "run" {
+					t := t
+					swg.Add(1)
+					go func() { defer swg.Done(); submit(t) }()
+				} else {
+					submit(t)
+				}
+			}
+		}
+		phase(1)
+		for dl := time.Now().Add(10 * time.Second); holdersIn.Load() < 2 && time.Now().Before(dl); {
+			time.Sleep(200 * time.Microsecond)
+		}
+		phase(2)
+		time.Sleep(40 * time.Millisecond)
+		phase(3)
+		for dl := time.Now().Add(5 * time.Second); time.Now().Before(dl); {
+			pending := 0
+			for _, t := range hist.Tasks {
+				if t.Phase == 3 && h.execs[t.ID].Load() == 0 {
+					pending++
+				}
+			}
+			if pending == 0 {
+				break
+			}
+			time.Sleep(time.Millisecond)
+		}
+		close(gate)
+	}
 	// saturation phase: the holding tasks are submitted from their own goroutines
 	for _, t := range hist.Tasks {
+		if overflow {
+			break
+		}
 		if t.Hold {
 			t := t
 			swg.Add(1)
 			go func() { defer swg.Done(); submit(t) }()
 		}
 	}
-	for s := 0; s < hist.Submitters; s++ {
+	for s := 0; s < hist.Submitters && !overflow; s++ {
 		s := s
 		swg.Add(1)
 		go func() {
@@ -471,6 +707,12 @@ func (h *c15H) runHist(hi int, hist *c15Hist) bool {
 	h.b.Count("histories_"+hist.Class, 1)
 	mdHits := h.maxdelay.Load() - md0
 	h.b.Count("maxdelay_expiries_observed", mdHits)
+	if overflow {
+		q := 100 * runtime.GOMAXPROCS(0)
+		if mdHits > int64(q) { // more expiries than the queue holds requests: some came from submissions that found it full
+			h.b.Count("overflow_histories_with_queue_full_expiries", 1)
+		}
+	}
 
 	// ---- M2: exactly once, errors handed back
 	for _, t := range hist.Tasks {
@@ -604,7 +846,8 @@ func mixSig(h *c15Hist) string {
 func (h *c15H) fence(hi int, hist *c15Hist) bool {
 	sp := h.sp
 	deadline := time.Now().Add(60 * time.Second)
-	for h.granted.Load() != h.submitted.Load() || h.concluded.Load() != h.expConcl.Load() {
+	overflow := strings.HasPrefix(hist.Class, "overflow")
+	for (!overflow && h.granted.Load() != h.submitted.Load()) || h.concluded.Load() != h.expConcl.Load() {
 		// both expectations are final here (every submission of the history was made),
 		// the observed counts only grow: an excess cannot go away
 		if c, e := h.concluded.Load(), h.expConcl.Load(); c > e {
@@ -612,7 +855,7 @@ func (h *c15H) fence(hi int, hist *c15Hist) bool {
 				map[string]any{"spec": h.specNoTasks(), "history": hi, "mix": mixSig(hist), "counts": h.counts()})
 			return false
 		}
-		if g, sb := h.granted.Load(), h.submitted.Load(); g > sb {
+		if g, sb := h.granted.Load(), h.submitted.Load(); g > sb && !overflow {
 			h.b.Violation("C15:M3:more-grants-than-requests:"+hist.Class, fmt.Sprintf("%d clearances granted for %d requests", g, sb), map[string]any{"spec": h.specNoTasks(), "history": hi})
 			return false
 		}
@@ -631,6 +874,18 @@ func (h *c15H) fence(hi int, hist *c15Hist) bool {
 	// as a leak (a leaked count never goes away; a goroutine that merely has not been
 	// scheduled does). A sample that is too LOW or a non-zero module counter cannot be
 	// transient and is reported at once.
+	if overflow {
+		// Submissions that found their clearance queue full never queued a request, so
+		// the number of requests is unknown here. The queues are FIFO: once a low- and
+		// then a medium-priority drain microtask submitted now have been granted, every
+		// request queued during the history (also the stale ones of functions that
+		// started by their max delay) has been answered and counted. The request count is
+		// then re-based inside the grant hook of the sampling probe.
+		h.expConcl.Add(2)
+		_ = h.prb.RunLowPriorityMicroTask("drain", c15BigDelayMs*time.Millisecond, func(context.Context) error { return nil })
+		_ = h.prb.RunMicroTask("drain", c15BigDelayMs*time.Millisecond, func(context.Context) error { return nil })
+		h.resync.Store(true)
+	}
 	var smp probeSample
 	patience := time.Now().Add(10 * time.Second)
 	for try := 0; ; try++ {
@@ -727,6 +982,8 @@ var c15RaceScope = []string{"microTaskScheduler", "microTaskShutdownScheduler", 
 const c15Rule = "case = one started module system (1-3 workload modules + a probe module), limit in {2,3,4,8,32}, three histories of 10-400 microtasks each: " +
 	"Run*/Start*/Signal* x high/medium/low, run times 0-5 ms, 0-10% panicking, 20% returning an error, 1-16 submitting goroutines, done() called 1-3 times (also concurrently); " +
 	"class m1: max delays of 30 s (never expire), a saturation phase in which `limit` functions stay until all of them run; class tiny: max delays of 0-5 ms (only M2-M4 asserted); " +
+	"class overflow-low/-med (child run with GOMAXPROCS=2, i.e. clearance queues of 200): limit 2, both slots held, 220 requests queued, 260 further submissions with a 1 ms max delay that find the queue full (M2-M4 only, followed by an m1 history); " +
+	"every child ends with Shutdown while one microtask per module (Run/Start/Signal x priority, also panicking) is still running and is the last item of its module to return; " +
 	"hooks idle or PRNG delays at modules.mt.granted / modules.mt.conclude. distinct = class x limit x submitters x size x priority/variant mix x observed maximum concurrency; " +
 	"non-trivial = every history (all run >= 10 microtasks through the scheduler and end with the quiescence fence)"
 
@@ -747,6 +1004,15 @@ func c15Parent(cfg vlib.Cfg) {
 	} else {
 		cases = c15Cases(cfg)
 	}
+	if oc := os.Getenv("VERIF_ONLY_CASE"); oc != "" { // development aid
+		var keep []*c15Spec
+		for _, sp := range cases {
+			if fmt.Sprint(sp.Case) == oc {
+				keep = append(keep, sp)
+			}
+		}
+		cases = keep
+	}
 	type job struct {
 		sp      *c15Spec
 		race    bool
@@ -765,7 +1031,7 @@ func c15Parent(cfg vlib.Cfg) {
 			if j.race {
 				bin = cfg.BinRace
 			}
-			specs = append(specs, vlib.ChildSpec{Name: fmt.Sprintf("c15-r%d-%04d-%d", round, j.sp.Case, i), Bin: bin, Spec: j.sp, Timeout: 200 * time.Second, Race: j.race})
+			specs = append(specs, vlib.ChildSpec{Name: fmt.Sprintf("c15-r%d-%04d-%d", round, j.sp.Case, i), Bin: bin, Spec: j.sp, Timeout: 200 * time.Second, Race: j.race, Env: c15Env(j.sp), Keep: os.Getenv("VERIF_ONLY_CASE") != ""})
 		}
 		var retry []job
 		vlib.RunChildren(cfg, specs, func(i int, c *vlib.ChildResult) {
@@ -803,6 +1069,10 @@ func c15Parent(cfg vlib.Cfg) {
 				rep.MergeChild(c)
 			}
 			rep.Seen("limits_driven", fmt.Sprint(j.sp.Limit))
+			rep.Max("slowest_child_ms", c.Wall.Milliseconds())
+			if c.Wall > 8*time.Second {
+				rep.Note("case %d took %s (limit %d, race build %v)", j.sp.Case, c.Wall.Round(time.Millisecond), j.sp.Limit, j.race)
+			}
 		})
 		jobs = retry
 	}
@@ -816,6 +1086,8 @@ func c15Parent(cfg vlib.Cfg) {
 		rep.Floor(rep.Counter("quiescence_fences") >= int64(cfg.N(300, 10000)), "only %d quiescence fences", rep.Counter("quiescence_fences"))
 		rep.Floor(rep.Counter("histories_tiny") > 0 && rep.Counter("maxdelay_expiries_observed") > 0, "no max-delay expiry observed in the tiny class")
 		rep.Floor(rep.Counter("run_errors_checked") > 0 && rep.Counter("run_panics_checked") > 0, "no error/panic hand-back checked")
+		rep.Floor(rep.Counter("histories_overflow-low") > 0 && rep.Counter("histories_overflow-med") > 0 && rep.Counter("overflow_histories_with_queue_full_expiries") > 0,
+			"overflow classes not exercised (low=%d med=%d with queue-full expiries=%d)", rep.Counter("histories_overflow-low"), rep.Counter("histories_overflow-med"), rep.Counter("overflow_histories_with_queue_full_expiries"))
 	}
 	rep.Assume("M1 is asserted at instants at which no harness high-priority function is between its begin and end, in histories without any modules.mt.maxdelay event, all before Shutdown")
 	rep.Assume("the gauge of a function lies inside the interval during which portbase counts the microtask, except for the grant window (request answered, not yet counted), during which the single scheduler goroutine cannot admit another one")
@@ -824,6 +1096,13 @@ func c15Parent(cfg vlib.Cfg) {
 		fmt.Println("h_work: cannot write result:", err)
 		os.Exit(2)
 	}
+}
+
+func c15Env(sp *c15Spec) []string {
+	if sp.GoMaxProcs > 0 {
+		return []string{fmt.Sprintf("GOMAXPROCS=%d", sp.GoMaxProcs)}
+	}
+	return nil
 }
 
 func c15RaceInScope(rr *vlib.RaceReport) bool {
